@@ -2,9 +2,9 @@ package main
 
 import (
 	"fmt"
-	"os"
 	"go/token"
 	"go/types"
+	"os"
 	"sort"
 	"strings"
 
@@ -35,19 +35,19 @@ type modEntry struct {
 func (e modEntry) matches(comp string) bool { return e.Comp == comp }
 
 type loopInfo struct {
-	header  *ssa.BasicBlock
-	blocks  map[*ssa.BasicBlock]bool
-	ord     int // 1-based source order
-	spec    *LoopSpec
-	items   []modEntry
-	allocLE string
+	header    *ssa.BasicBlock
+	blocks    map[*ssa.BasicBlock]bool
+	ord       int // 1-based source order
+	spec      *LoopSpec
+	items     []modEntry
+	allocLE   string
 	threshold string // objects allocated after this point may be written in the loop without declaration
-	touched []string
-	parent  *loopInfo
+	touched   []string
+	parent    *loopInfo
 	// state at header after havoc (for decreases)
-	phiHavoc map[*ssa.Phi]Val
-	variant0 string
-	stHeader *State
+	phiHavoc  map[*ssa.Phi]Val
+	variant0  string
+	stHeader  *State
 	stEntry   *State
 	entryPhis map[*ssa.Phi]Val
 }
@@ -67,33 +67,33 @@ type deferInfo struct {
 }
 
 type Act struct {
-	vc       *VC
-	fn       *ssa.Function
-	mode     int
-	depth    int
-	contract *Contract
-	vals     map[ssa.Value]Val
-	params   map[string]Val
-	ghosts   map[string]Val
-	entry    *State
-	in       map[*ssa.BasicBlock]*State
-	out      map[*ssa.BasicBlock]*State
-	edge     map[[2]int]string // (from index, to index) -> condition (includes reach(from))
-	returns  []retInfo
-	defers   []deferInfo
-	loops    map[*ssa.BasicBlock]*loopInfo // by header
-	inLoop   map[*ssa.BasicBlock]*loopInfo // innermost loop of block
-	order    []*ssa.BasicBlock
-	funcMods []modEntry
-	hasMods  bool
-	allocE   string
-	label    string // prefix for obligation labels when inlined
-	callCnt  map[string]int
-	callOrd  map[ssa.Instruction]int // k-th call of the same callee in source order
-	dry      bool
-	cur      *State
-	curBlk   *ssa.BasicBlock
-	curIdx   int
+	vc          *VC
+	fn          *ssa.Function
+	mode        int
+	depth       int
+	contract    *Contract
+	vals        map[ssa.Value]Val
+	params      map[string]Val
+	ghosts      map[string]Val
+	entry       *State
+	in          map[*ssa.BasicBlock]*State
+	out         map[*ssa.BasicBlock]*State
+	edge        map[[2]int]string // (from index, to index) -> condition (includes reach(from))
+	returns     []retInfo
+	defers      []deferInfo
+	loops       map[*ssa.BasicBlock]*loopInfo // by header
+	inLoop      map[*ssa.BasicBlock]*loopInfo // innermost loop of block
+	order       []*ssa.BasicBlock
+	funcMods    []modEntry
+	hasMods     bool
+	allocE      string
+	label       string // prefix for obligation labels when inlined
+	callCnt     map[string]int
+	callOrd     map[ssa.Instruction]int // k-th call of the same callee in source order
+	dry         bool
+	cur         *State
+	curBlk      *ssa.BasicBlock
+	curIdx      int
 	unsupported []string
 	parentAct   *Act
 	escape      *escapeInfo
